@@ -280,9 +280,9 @@ def run_history(rec, case):
 def plan(tier, seed):
     n = 16
     if tier == 'thorough':
-        shards = [{'seed': seed, 'shard': s, 'n': 90, 'nact': 400, 'maxs': 25}
+        shards = [{'seed': seed, 'shard': s, 'n': 400, 'nact': 400, 'maxs': 25}
                   for s in range(n - 2)]
-        shards += [{'seed': seed, 'shard': 100 + s, 'n': 4, 'nact': 2000,
+        shards += [{'seed': seed, 'shard': 100 + s, 'n': 30, 'nact': 2000,
                     'maxs': 40} for s in range(2)]
         return shards
     return [{'seed': seed, 'shard': s, 'n': 20, 'nact': 160, 'maxs': 10}
